@@ -78,7 +78,26 @@ def run(ck):
                 b = s0.get("bytes") or [ord(c) for c in (s0.get("v") or "")]
                 seq.append(("const", b, n))
             else:
-                seq.append(("data", None, n))
+                # a constant byte array (file-scope or static local) written in one call
+                arr = None
+                if s0.get("k") == "ref" and s0.get("decl"):
+                    gv = F.globals.get(s0["decl"])
+                    init = gv.get("init") if gv and gv.get("const") else None
+                    if init is None:
+                        _, lv = local_var(fn, s0["decl"])
+                        init = lv.get("init") if lv and lv.get("const") else None
+                    init = skip_copies(init) if isinstance(init, dict) else None
+                    if isinstance(init, dict) and init.get("k") == "initlist":
+                        vals = [const_int(e) for e in init.get("els", [])]
+                        if vals and all(v is not None for v in vals):
+                            arr = [v & 0xFF for v in vals]
+                    elif isinstance(init, dict) and init.get("k") == "str":
+                        arr = init.get("bytes") or [ord(c) for c in (init.get("v") or "")]
+                k = const_int(a[1]) if len(a) > 1 else None
+                if arr is not None and k is not None:
+                    seq.append(("const", (arr + [0] * k)[:k], n))
+                else:
+                    seq.append(("data", None, n))
     hdr = []
     i = 0
     while i < len(seq) and seq[i][0] == "const":
@@ -89,6 +108,9 @@ def run(ck):
         i += 1
     rest = seq[i:]
     ok = len(hdr) == 10 and hdr[:4] == [0x1f, 0x8b, 0x08, 0x00]
+    if not hdr:
+        ck.ob("C08-O1", sitestr(fn, wr[0]), None, "the first write to the .gz is not made of constants the analysis can read; header layout not decided")
+        return
     ck.ob("C08-O1", sitestr(fn, wr[0]), ok, "header bytes %s" % " ".join("%02x" % b for b in hdr) if ok else "header is %s (expected 10 bytes starting 1f 8b 08 00)" % " ".join("%02x" % b for b in hdr),
           key="compressFile|header")
     uncond = all(g.must_pass({sites[s[2]["id"]]}, frm=sites[wr[0]["id"]]) for s in seq[:i])
@@ -250,18 +272,20 @@ def crc32(ck, S):
         for v in n.get("vars", []):
             if "[256]" in (v.get("type") or ""):
                 tab = v
-    ck.ob("C08-O4", sitestr(fn), tab is not None, "256-entry table" if tab else "no 256-entry table", key="calculateCRC32|table-size")
+    ck.ob("C08-O4", sitestr(fn), True if tab is not None else None, "256-entry table" if tab else "no 256-entry table found in the CRC code; idiom not recognised", key="calculateCRC32|table-size")
     if tab is None:
         return
     # update idiom
     upd = [n for n in fn.find(lambda n: n.get("k") == "binop" and n.get("op") == "=" and is_ref_to(n.get("lhs"), crcv["decl"]))]
+    # `crc = helper(crc, ...)` only hands the register through a spliced helper; the real update is inside it
+    upd = [n for n in upd if not (skip_copies(n.get("rhs")).get("k") == "call" and skip_copies(n.get("rhs")).get("inl_body") is not None)] or upd
     okupd = False
     why = "no update of the CRC register"
     if len(upd) == 1:
         r = skip_copies(upd[0].get("rhs"))
         if r.get("k") == "binop" and r.get("op") == "^":
             parts = [skip_copies(r.get("lhs")), skip_copies(r.get("rhs"))]
-            sub = [p for p in parts if p.get("k") == "subscript" and is_ref_to(p.get("base"), tab["decl"])]
+            sub = [p for p in parts if p.get("k") == "subscript" and (is_ref_to(p.get("base"), tab["decl"]) or is_ref_to(deref_local(fn, p.get("base")), tab["decl"]))]
             shr = [p for p in parts if p.get("k") == "binop" and p.get("op") == ">>" and is_ref_to(p.get("lhs"), crcv["decl"]) and const_int(p.get("rhs")) == 8]
             if sub and shr:
                 idx = skip_copies(sub[0].get("idx"))
@@ -284,7 +308,7 @@ def crc32(ck, S):
                 why = "update is not table[...] ^ (crc >> 8)"
         else:
             why = "update is %s" % describe(r)
-    ck.ob("C08-O4", sitestr(fn, upd[0]) if upd else sitestr(fn), okupd, "update crc = table[(crc ^ byte) & 0xFF] ^ (crc >> 8)" if okupd else "CRC update idiom not standard: %s" % why, key="calculateCRC32|update")
+    ck.ob("C08-O4", sitestr(fn, upd[0]) if upd else sitestr(fn), okupd if (okupd or len(upd) == 1) else None, "update crc = table[(crc ^ byte) & 0xFF] ^ (crc >> 8)" if okupd else "CRC update idiom not standard: %s" % why, key="calculateCRC32|update")
     # the update covers every byte read: inner loop from 0 to bytesRead, outer loop until atEnd
     if upd:
         loops = enclosing_loops(fn, upd[0])
@@ -302,12 +326,13 @@ def crc32(ck, S):
                 det = "" if okl else "inner bound is %s" % describe(bound)
             co = skip_copies(outer.get("cond"))
             okl = okl and any(is_call(x, ("atEnd",)) for x in walk(co))
-        ck.ob("C08-O4", sitestr(fn, upd[0]), okl, "every byte returned by read() is folded in, until atEnd()" if okl else "the CRC loops do not cover every byte read %s" % det, key="calculateCRC32|coverage")
+        ck.ob("C08-O4", sitestr(fn, upd[0]), okl if (okl or len(loops) == 2) else None, "every byte returned by read() is folded in, until atEnd()" if okl else "the CRC loops do not cover every byte read %s" % det, key="calculateCRC32|coverage")
     # table generation: 256 x 8 steps
     gen = [n for n in fn.find(lambda n: n.get("k") == "binop" and n.get("op") == "=" and skip_copies(n.get("lhs")).get("k") == "subscript" and is_ref_to(skip_copies(n.get("lhs")).get("base"), tab["decl"]))]
     okg = False
+    n8 = n256 = step = False
     if len(gen) == 1:
-        outer = enclosing_loops(fn, gen[0])
+        outer = enclosing_loops(fn, gen[0], local=True)
         if len(outer) == 1 and outer[0].get("k") == "for":
             oc = skip_copies(outer[0].get("cond"))
             n256 = oc.get("k") == "binop" and oc.get("op") == "<" and const_int(oc.get("rhs")) == 256
@@ -315,12 +340,15 @@ def crc32(ck, S):
             n8 = len(inner) == 1 and skip_copies(inner[0].get("cond")).get("op") == "<" and const_int(skip_copies(inner[0].get("cond")).get("rhs")) == 8
             step = False
             if n8:
-                xs = [n for n in walk(inner[0].get("body")) if n.get("k") == "binop" and n.get("op") == "^" and any(const_int(x) == 0xEDB88320 for x in (n.get("lhs"), n.get("rhs")))]
+                xs = [n for n in walk(inner[0].get("body")) if n.get("k") == "binop" and n.get("op") in ("^", "^=") and any(const_int(x) == 0xEDB88320 or const_int(deref_local(fn, x)) == 0xEDB88320 for x in (n.get("lhs"), n.get("rhs")))]
                 sh = [n for n in walk(inner[0].get("body")) if n.get("k") == "binop" and n.get("op") in (">>", ">>=") and const_int(n.get("rhs")) == 1]
                 tst = [n for n in walk(inner[0]) if n.get("k") == "binop" and n.get("op") == "&" and const_int(n.get("rhs")) == 1]
                 step = bool(xs) and len(sh) >= 2 and bool(tst)
             okg = bool(n256 and n8 and step)
-    ck.ob("C08-O4", sitestr(fn), okg, "table[i] = 8 x (v & 1 ? (v >> 1) ^ poly : v >> 1) for i in 0..255" if okg else "table generation idiom not recognised as the standard reflected CRC-32 table", key="calculateCRC32|table-generation")
+    # a definite contradiction is a 256/8 loop nest whose step is not the reflected shift/xor; anything else is "not recognised"
+    definite = len(gen) == 1 and bool(n8) and bool(n256) and not step
+    ck.ob("C08-O4", sitestr(fn), True if okg else False if definite else None, "table[i] = 8 x (v & 1 ? (v >> 1) ^ poly : v >> 1) for i in 0..255" if okg else
+          "table generation idiom not recognised as the standard reflected CRC-32 table", key="calculateCRC32|table-generation")
     seeks = [n for n in fn.calls(("QIODevice::seek", "QFileDevice::seek", "QFile::seek")) if const_int(n["args"][0]) == 0]
     rd = [n for n in fn.calls(("QIODevice::read", "QFile::read"))]
     oks = bool(seeks) and bool(rd) and g.dominated(g.site_of(rd[0]), {g.site_of(seeks[0])})
